@@ -451,6 +451,11 @@ def _find_func(idx, clsname, meth):
         cls = idx.get_class(clsname)
         res = idx.find_method(cls, meth)
         func = res[1] if res else None
+        if func is None:
+            for kls in idx.mro(cls):
+                if meth in kls.properties:
+                    func = kls.properties[meth]
+                    break
     if func is None:
         raise AnalysisError(f"{clsname}.{meth} not found")
     return func
@@ -482,8 +487,11 @@ def check_predicates(idx, run, rule, specs):
             if got is not None:
                 wit, where = got, c["line"]
                 break
-        mod = idx.module(clsname[7:]) if clsname.startswith("module:") \
-            else idx.find_method(idx.get_class(clsname), meth)[0].module
+        if clsname.startswith("module:"):
+            mod = idx.module(clsname[7:])
+        else:
+            res = idx.find_method(idx.get_class(clsname), meth)
+            mod = res[0].module if res else idx.get_class(clsname).module
         run.check(
             rule, wit is None, key,
             f"answers {dangerous} for no more inputs than reviewed",
